@@ -9,6 +9,10 @@ namespace photospline{
 template<typename Alloc>
 bool splinetable<Alloc>::searchcenters(const double* x, int* centers) const
 {
+	//an empty table has nothing to look anything up in (and nothing to evaluate)
+	if (ndim == 0)
+		return (false);
+	
 	for (uint32_t i = 0; i < ndim; i++) {
 		
 		/*
@@ -379,6 +383,9 @@ template<typename Alloc>
 template<typename Float>
 typename splinetable<Alloc>::template evaluator_type<Float>
 splinetable<Alloc>::get_evaluator() const{
+	if (ndim == 0)
+		throw std::runtime_error("splinetable contains no data, cannot construct an evaluator");
+	
 	evaluator_type<Float> eval(*this);
 	
 	uint32_t constOrder = order[0];
